@@ -26,12 +26,18 @@ whether the merge succeeded or reported an error, however many of them occur, an
 stand — in particular **between a successful `Merge` and the restart that adopts its output any
 number of batches may be committed** (the gap left open by `C06_mergeOut_stable`; closed by
 `MergeOutB` in `Proofs/HistoryReplay.lean`, `MergeOutB.grown` / `bcommitL` in
-`Proofs/HistoryInv.lean`, restated here as `C06_batches_after_merge`).
+`Proofs/HistoryInv.lean`, restated here as `C06_mergeOut_stable_batch` / `C06_adopt_after_batches`).
+`Backup` does not change the map either.
+
+Theorems: `C01_refines_history` (refinement, with the run predicate `RunOK`),
+`C01_refines_history_small` (all hypotheses static), `C01_latest_write_history` (latest write wins),
+`C06_mergeOut_stable_batch`, `C06_adopt_after_batches`, `demo_refines` (non-vacuity).
 
 ## Side conditions (all explicit)
 
 * `HOpOK`: keys and values shorter than 2^31 bytes (implied by `AOpOK`'s 2^27); batch ids positive and
-  below 2^63; `Merge` visits each file once (`order.Nodup`); restart configurations are `Valid`.
+  below 2^63; `Merge` visits each file once (`order.Nodup`); restart configurations are `Valid`; a
+  `Backup` destination is neither the data directory nor its merge directory (excluded point `e3`).
   NO distinctness of batch ids is assumed: `NewBatch` builds a new snowflake node per batch, so two
   batches created within one millisecond carry the SAME id, and the theorem covers that.  (In a
   crash-free history every batch in the log is sealed before anything else is written — the
@@ -43,8 +49,8 @@ number of batches may be committed** (the gap left open by `C06_mergeOut_stable`
   uncommitted leaves the lock held for ever.  Everything else is allowed, e.g. plain calls and
   `Merge` while a dead batch object is still around, calls through a dead batch
   (`ErrBatchCommitted`) or through no batch at all (the model's `no-batch`).
-* `RunOK` — two `uint32` range conditions on the RUN, which cannot be derived from the history's
-  shape alone: when `Merge` is called the active file id + 1 fits `uint32` (`FileID` is a `uint32`);
+* `RunOK` — two `uint32` range conditions on the RUN (they depend on how often files rotate and
+  how large the merged files get, not on the shape of the history): when `Merge` is called the active file id + 1 fits `uint32` (`FileID` is a `uint32`);
   when the database is restarted, every file of a pending FINISHED merge directory (marker present)
   is shorter than 4 GiB (`DataPos.Offset/Size` are `uint32`: the hint file cannot express more).
   `C01_refines_history_small` below DERIVES both from static bounds on the history (number of calls,
